@@ -164,7 +164,15 @@ def _register_extension(
     """
     ext_type = new_extension._type
 
-    _validate_type(ext_type, version)
+    if ext_type.startswith('extension-definition--'):
+        # "extension-definition--<UUID>": here the doubled hyphen is the
+        # identifier separator, not part of a type name.
+        if not re.match(r'^[a-z0-9-]+$', ext_type.split('--', 1)[1]):
+            raise ValueError(
+                "Invalid extension definition id '%s'." % ext_type,
+            )
+    else:
+        _validate_type(ext_type, version)
     if version == "2.1":
         if not (ext_type.endswith('-ext') or ext_type.startswith('extension-definition--')):
             raise ValueError(
